@@ -106,6 +106,41 @@ fn asset_list(r: &mut Rng, focus: Focus, depth: u32) -> Vec<tir::AssetExpr> {
     v
 }
 
+/// an output amount: a plain asset list, or (C02, C14) arithmetic over asset lists whose
+/// entries sit at the ends of the i128 range, or (C14) what only a decoded IR can hold: an
+/// amount that is a constant but not a number, an IntoScript coercion
+fn amount_expr(r: &mut Rng, focus: Focus, depth: u32) -> E {
+    let plain = E::Assets(asset_list(r, focus, depth));
+    if !(focus == Focus::C02 || focus == Focus::C14) || r.chance(3, 4) {
+        return plain;
+    }
+    let other = |r: &mut Rng| {
+        let mut v = asset_list(r, focus, 0);
+        if r.chance(1, 2) {
+            v[0].amount = E::Number(*r.pick(&[i128::MAX, i128::MIN, i128::MAX - 5_000_000, 1i128 << 126, 2_000_000, -1_000_000]));
+        }
+        if r.chance(1, 3) {
+            // the same class twice within one list: the list itself is summed
+            let again = v[0].clone();
+            v.push(again);
+        }
+        E::Assets(v)
+    };
+    match r.below(if focus == Focus::C14 { 6 } else { 3 }) {
+        0 => tir::BuiltInOp::Add(plain, other(r)).into(),
+        1 => tir::BuiltInOp::Sub(plain, other(r)).into(),
+        2 => tir::BuiltInOp::Add(plain, tir::BuiltInOp::Negate(other(r)).into()).into(),
+        3 => {
+            let mut v = asset_list(r, focus, 0);
+            let k = r.below(v.len() as u64) as usize;
+            v[k].amount = match r.below(3) { 0 => E::Bytes(vec![1, 2]), 1 => E::String("7".into()), _ => E::Bool(true) };
+            if r.chance(1, 2) { tir::BuiltInOp::Add(plain, E::Assets(v)).into() } else { tir::BuiltInOp::Negate(E::Assets(v)).into() }
+        }
+        4 => tir::Coerce::IntoAssets(tir::Coerce::IntoScript(plain).into()).into(),
+        _ => tir::BuiltInOp::Add(plain, tir::Coerce::IntoScript(E::Bytes(vec![0x4d, 1, 0, 0])).into()).into(),
+    }
+}
+
 fn const_data(r: &mut Rng, d: u32) -> E {
     match r.below(if d == 0 { 3 } else { 6 }) {
         0 => E::Number(match r.below(4) {
@@ -172,7 +207,7 @@ pub fn gen_tx(r: &mut Rng, focus: Focus) -> tir::Tx {
         .map(|_| tir::Output {
             address: address(r, focus),
             datum: if r.chance(1, 3) { const_data(r, 2) } else { E::None },
-            amount: E::Assets(asset_list(r, focus, depth)),
+            amount: amount_expr(r, focus, depth),
             optional: focus == Focus::C10 && r.chance(1, 3),
         })
         .collect::<Vec<_>>();
@@ -404,6 +439,6 @@ pub fn run(ctx: &mut Ctx, focus: Focus) {
     ctx.meta.insert("samples".into(), serde_json::json!(samples));
     ctx.meta.insert(
         "rule".into(),
-        serde_json::json!("closed IR transactions (1-4 inputs as reference lists or UTxO sets with optional redeemers and permuted txids, 1-3 outputs with lovelace/native amounts, optional datum, 0-3 mints/burns over 3 policies, withdrawal / plutus_witness / native_witness / cardano_publish / treasury_donation directives, validity, metadata, references, collateral, signers); C02: amounts, fee, slots, keys are closed integer expressions over boundary values (0, +-1, 23/24, 2^8, 2^16, 2^31, 2^32, 2^63, 2^64, i128 extremes) and are reduced first; C08: up to 4 script inputs, equal and distinct policies, up to 2 withdrawals; C10: optional outputs, cancelling mint/burn, missing cost models, compile twice; C14: wrong-length hashes and txids, string references, malformed scripts and addresses, missing cost models"),
+        serde_json::json!("closed IR transactions (1-4 inputs as reference lists or UTxO sets with optional redeemers and permuted txids, 1-3 outputs with lovelace/native amounts, optional datum, 0-3 mints/burns over 3 policies, withdrawal / plutus_witness / native_witness / cardano_publish / treasury_donation directives, validity, metadata, references, collateral, signers); C02: amounts, fee, slots, keys are closed integer expressions over boundary values (0, +-1, 23/24, 2^8, 2^16, 2^31, 2^32, 2^63, 2^64, i128 extremes) and are reduced first; C08: up to 4 script inputs, equal and distinct policies, up to 2 withdrawals; C10: optional outputs, cancelling mint/burn, missing cost models, compile twice; C02, C14: a quarter of the output amounts are sums / differences / negations of asset lists with entries at the ends of the i128 range and repeated classes; C14: wrong-length hashes and txids, string references, malformed scripts and addresses, missing cost models, asset amounts that are not numbers, IntoScript coercions"),
     );
 }
